@@ -9,7 +9,11 @@
      IDEN, raw symbolic matrices): the held state and every query (dense state, amplitudes,
      unitary, reduced density matrices, local expectations, marginals) equal the reference
      product U_n ... U_1 |psi0> built from the table.
- (c) histories: apply -> query -> apply -> update parameters -> query equals a fresh circuit.
+ (c) histories: apply -> query -> apply -> update parameters -> query equals a fresh circuit; circuits with
+     named parameters (register_named_params / OpenQASM 3 input): updates by name, by gate index, mixed and
+     through update_params_from, every query kind before and after.
+ (d) permutation tracking: a non-adjacent two-qubit gate followed by SWAP on every qubit pair and further gates,
+     on every simulator (CircuitPermMPS then works through a non-trivial site <-> qubit map).
 """
 import itertools
 import math
@@ -30,18 +34,41 @@ from qv.harness import obligation, Skip
 PROP = "C07"
 META = {
     "bounds": {
-        "quick": {"qubits": 3, "program length": "<= 5 gates", "parameters": "symbolic reals (all values at once)",
-                  "simulators": "Circuit x {False, True, auto-split-gate, split-gate, swap-split-gate}, CircuitDense, CircuitMPS, CircuitPermMPS",
-                  "queries": "to_dense, amplitude, uni, partial_trace, local_expectation (non-symmetric symbolic operator), compute_marginal"},
-        "thorough": {"program length": "<= 6", "more programs and query arguments": True},
+        "quick": {"qubits": "3 (4 in the perm4-* programs and perm_tracking N=4)", "program length": "<= 8 gates",
+                  "parameters": "symbolic reals (all values at once)",
+                  "simulators": "Circuit x {False, True, auto-split-gate, split-gate, swap-split-gate}, CircuitDense, CircuitMPS, CircuitPermMPS; "
+                                "CircuitMPSLazy x {dm, direct} in the labelled numeric-only supplement mps_lazy_numeric",
+                  "queries": "to_dense, amplitude, uni, partial_trace, local_expectation (non-symmetric symbolic operator), compute_marginal",
+                  "MPS queries": "partial_trace / local_expectation (symbolic complex operator) on one and two sites in both orders, adjacent and "
+                                 "non-adjacent, bare-integer argument; compute_marginal on one / two / all sites; to_dense and amplitude "
+                                 "after the in-place re-canonisation of local_expectation; on programs with complex amplitudes (RX, RZ, T, Y, CY) "
+                                 "and with a permuted site order",
+                  "perm_tracking": "first two-qubit gate on every ordered non-adjacent pair (N = 3, 4) x SWAP on every ordered pair (N = 3) / every "
+                                   "unordered pair (N = 4), then IDEN, RY, CX on the swapped qubits; all simulator classes",
+                  "named parameters": "2 names + 1 directly parametrised gate; expressions: bare name, arithmetic string, callable; built by "
+                                      "register_named_params and by OpenQASM 3 input declarations; histories of <= 3 updates by name only / "
+                                      "one name / gate index only / mixed / update_params_from, old and new values symbolic; every query kind "
+                                      "before and after each update"},
+        "thorough": {"program length": "<= 8", "more programs and query arguments": True},
     },
-    "outside": ["sampling statistics (samplers run in the numeric cross-run only: support on non-zero probability strings, MPS sample probability == |amplitude|^2)",
-                "strength / optimality of simplification and light-cone cancellation", "N > 3", "PEPS / PEPO circuit classes",
-                "qasm / qsim parsers", "gate-splitting of *symbolic* two-qubit gates by numerical rank detection (cutoff on symbolic singular values): numeric cross-run only",
-                "truncating MPS options"],
+    "outside": ["sampling statistics (samplers run in the numeric cross-run only: support on non-zero probability strings, MPS sample probability == |amplitude|^2; "
+                "after a parameter update: same seed gives the samples of a fresh circuit)",
+                "strength / optimality of simplification and light-cone cancellation", "N > 4 (N = 4 only for the permutation programs)", "PEPS / PEPO circuit classes",
+                "qasm / qsim parsers (only the OpenQASM 3 input-parameter registration is exercised)",
+                "gate-splitting of *symbolic* two-qubit gates by numerical rank detection (cutoff on symbolic singular values): numeric cross-run only",
+                "truncating MPS options",
+                "CircuitMPSLazy (compression by eigen-decomposition with numerical rank detection): numeric cross-run only",
+                "MPS compute_marginal with fix= (the library rescales tensors by float roots of 2: equal to floating point only): numeric runs only",
+                "MPS local_expectation on the 4-qubit programs: numeric cross-run only (isometry certificates > 10**5 rows)",
+                "CircuitMPS (swap + swap back) with a two-qubit gate at distance 3: not in perm_tracking (certificate search beyond the budget)",
+                "S / SDG in MPS programs (their float table carries a 6e-17 real residue that exact certificates cannot absorb): T, RX, RZ, Y, CY supply the complex amplitudes",
+                "named-parameter expressions with additive constants (pi ...): exp of a non-zero constant is not modelled",
+                "named parameters on the MPS classes (documented as non-functional there)"],
     "assumptions": ["float gate tables denote the algebraic numbers they round (k/96, k*sqrt(2)/96, ...)",
                     "constants produced by numeric LAPACK on constant gate arrays are compared up to 1e-9 in polynomial coefficients",
-                    "LAPACK contracts (stubs) for the MPS simulators; singular values only assumed non-negative there"],
+                    "LAPACK contracts (stubs) for the MPS simulators; singular values only assumed non-negative there",
+                    "MPS partial_trace / local_expectation / compute_marginal: decided in two stages on separate paths (held dense state == reference state; "
+                    "query == the quantity computed from the held dense state), composed by transitivity"],
 }
 
 
@@ -523,10 +550,16 @@ _MP = [{"sim": s, "prog": k, "q": q,
 # programs with complex amplitudes / permuted site order and one older program
 _MPQ = ("rdm", "expect", "marginal")
 _MP += [{"sim": s, "prog": k, "q": "state", "_tiers": ("quick", "thorough"), "_mandatory": True} for s in _MPS_SIMS for k in _NEW_PROGS]
+_MARG_SLOW = ("perm-swap20", "perm4-swap12", "perm4-mixed")      # (marginal)**2 identities of degree 8 in the tensors: 10 - 90 s
 _MP += [{"sim": s, "prog": k, "q": q,
-         "_tiers": ("quick", "thorough") if (k in _NEW_PROGS + ("swap-iden",) and not (PROG_N.get(k, 3) == 4 and q == "marginal"))
-         else ("thorough",), "_mandatory": True}
-        for s in _MPS_SIMS for k in PROGRAMS for q in _MPQ]
+         "_tiers": ("quick", "thorough") if (k in _NEW_PROGS + ("swap-iden",) and not (k in _MARG_SLOW and q == "marginal"))
+         else ("thorough",),
+         # older programs whose state goal is itself beyond the certificate search (raw, toffoli ...) stay
+         # non-mandatory in the thorough tier, as for q = state / expec
+         "_mandatory": k in _NEW_PROGS + ("bell+ry", "swap-iden")}
+        for s in _MPS_SIMS for k in PROGRAMS for q in _MPQ
+        # stage A (state == reference) of these is itself beyond the certificate search (inconclusive / 500 s timeouts)
+        if not (k == "raw" or (k == "toffoli" and s == "CircuitMPS"))]
 
 
 def mps_query_args(N):
@@ -918,9 +951,8 @@ def history_named_params(mk, build, cfg, hist):
         v = ref_state(mk, prog, N, basis0(mk, N))
         query_goals(mk, circ, v, N, stage, otag=f"s{k}")
         gp = circ.get_params()
-        mk.eq(f"{stage}: get_params() reports the current named values", [P.lift(gp["theta"].item() if hasattr(gp["theta"], "item") else gp["theta"]) if mk.sym else complex(gp["theta"]),
-                                                                          P.lift(gp["phi"].item() if hasattr(gp["phi"], "item") else gp["phi"]) if mk.sym else complex(gp["phi"])],
-              [val["theta"], val["phi"]])
+        mk.eq(f"{stage}: get_params() reports the current named values",
+              np.concatenate([np.asarray(gp["theta"]).reshape(-1), np.asarray(gp["phi"]).reshape(-1)]), [val["theta"], val["phi"]])
         mk.eq(f"{stage}: get_params()[3] reports the current direct value", np.asarray(gp[3]).reshape(-1), [val["b"]])
         for i, want in ((1, prog[1][1][0]), (3, prog[3][1][0]), (4, prog[4][1][0]), (6, prog[6][1][0])):
             mk.eq(f"{stage}: gate record {i} carries the current parameter", np.asarray(circ.gates[i].params).reshape(-1), [want])
